@@ -188,8 +188,12 @@ def make_judges(ctx):
 
 def floors(tier):
     cells = [('rel', m, 'bound') for m in G.ROUNDINGS] + [('rel', 'around', 'tie-even')]
-    cells += [('monotone', m) for m in G.ROUNDINGS] + [('idempotent-noflag', m) for m in G.ROUNDINGS] + [('idempotent-indexed',), ('restore-int',), ('idempotent-like-flagged-template',), ('wide-fixed-point-input',)]
+    cells += [('monotone', m) for m in G.ROUNDINGS] + [('idempotent-noflag', m) for m in G.ROUNDINGS] + [('idempotent-indexed',), ('restore-int',), ('idempotent-like-flagged-template',), ('wide-fixed-point-input',), ('restore-after-raw-route',)]
     return cells
+
+
+def hi_d_ok(s, w, nf):
+    return (1 << nf) <= R.code_range(s, w)[1]
 
 
 def cases(tier, seed):
@@ -260,6 +264,30 @@ def run_case(case, ctx):
     y.reset()
     y(y())
     y.set_val(y.get_val())
+    # an object built from integers that gets fraction bits by resize() and then a fractional value by a raw route (equal / a fixed-point input):
+    # re-storing what it reads is a no-op
+    if 1 <= nf <= w and w >= 3:
+        try:
+            xi = Fxp(1 if hi_d_ok(s, w, nf) else 0, s, w, 0, rounding=r, overflow=o)
+            xi.resize(s, w, nf)
+            srcf = Fxp(rng.choice([1, 3, -3 if s else 3]), s, w, nf, raw=True)
+            xi.equal(srcf)
+            xj = Fxp(np.array([0, 1]), s, w, 0, rounding=r, overflow=o)
+            xj.resize(s, w, nf)
+            xj.set_val(Fxp(np.array([1, 3]), s, w, nf, raw=True))
+            for xo in (xi, xj):
+                before = np.asarray(xo.val, dtype=object).ravel().tolist()
+                xo.reset()
+                xo(xo())
+                xo.set_val(xo.get_val())
+                after = np.asarray(xo.val, dtype=object).ravel().tolist()
+                if before != after or any(xo.status[f] for f in ('overflow', 'underflow', 'inaccuracy')):
+                    ctx.violation('restore_changed', 'fxp-%s%d/%d %s/%s (built from integers, resized, written by a raw route): x(x()) changed the codes %r -> %r (status %s)' % (
+                        's' if s else 'u', w, nf, r, o, before, after, {f: xo.status[f] for f in ('overflow', 'underflow', 'inaccuracy')}))
+                ctx.judged(('restore-after-raw-route', s, r, o), True, None)
+            ctx.floor_hit(('restore-after-raw-route',))
+        except Exception:
+            pass
     # representable values stored into NEW objects built like a template whose own flags are raised: the new object reports no flag
     lo_t, hi_t = R.code_range(s, w)
     try:
